@@ -47,13 +47,14 @@ type c18Probe struct {
 }
 
 type c18Inst struct {
-	conf   c18Conf
-	t      *CachedLivenessTester
-	now    time.Duration
-	ops    []string
-	probes map[string][]c18Probe
-	called int
-	answer bool
+	conf    c18Conf
+	t       *CachedLivenessTester
+	now     time.Duration
+	ops     []string
+	probes  map[string][]c18Probe
+	refused bool
+	called  int
+	answer  bool
 }
 
 func c18New(conf c18Conf, ops []string) *c18Inst {
@@ -66,6 +67,10 @@ func c18New(conf c18Conf, ops []string) *c18Inst {
 	in.t = tt.(*CachedLivenessTester)
 	in.t.phantomIsLive = func(string) (bool, error) {
 		in.called++
+		if in.answer && in.refused {
+			// a host that answers the SYN with a reset is live too: the probe reports it with the dial error
+			return true, errors.New("dial tcp: connect: connection refused")
+		}
 		if in.answer {
 			return true, ErrLiveHost
 		}
@@ -106,7 +111,8 @@ func (in *c18Inst) Apply(op int) (string, string) {
 	switch p[0] {
 	case "q":
 		addr := p[1]
-		in.answer = p[2] == "live"
+		in.answer = p[2] == "live" || p[2] == "refused"
+		in.refused = p[2] == "refused"
 		in.called = 0
 		live, err := in.t.PhantomIsLive(addr, 443)
 		hist := in.probes[addr]
@@ -206,7 +212,7 @@ func c18BFS(a *vh.Args, confName string) {
 	for _, ad := range addrs {
 		ops = append(ops, "q:"+ad+":dead", "q:"+ad+":live")
 	}
-	ops = append(ops, "adv:29m59s", "adv:2s", "adv:1h29m58s", "clear")
+	ops = append(ops, "q:a:refused", "adv:29m59s", "adv:2s", "adv:1h29m58s", "clear")
 	sys := &vbfs.System{OpNames: ops, New: func() vbfs.Instance { return c18New(conf, ops) }}
 	if a.Replay != "" {
 		rp := vh.LoadReplay(a.Replay)
